@@ -7,12 +7,15 @@
    `c` and `in` return the next value of the function's oracle stream (0 when exhausted).
    Streams are read from the file named on the command line:  one line per function
        F <i> <n> v1 ... vn        (signed 64-bit decimals)
-   After LIMIT events the run of the function is cut (longjmp) and `LIMIT` is printed, so
-   that every run terminates.  */
+   After LIMIT events the run of the function is cut (longjmp) and `LIMIT` is printed; a run
+   that spins without events (`L: goto L;`) is cut by a timer and `SPIN` is printed; so every
+   run terminates.  */
 #include <stdio.h>
 #include <stdlib.h>
 #include <setjmp.h>
 #include <string.h>
+#include <signal.h>
+#include <sys/time.h>
 
 #define NMAX 64
 #define DECL(i) extern void f##i(void) __attribute__((weak));
@@ -27,15 +30,17 @@ static void (*fns[NMAX])(void) = { ALL(ROW) };
 static long *vals[NMAX];
 static int nvals[NMAX];
 static long *cur; static int ncur, oi, events, limit = 400;
-static jmp_buf jb;
+static sigjmp_buf jb;
 
-static void tick(void) { if (++events > limit) longjmp(jb, 1); }
+static void tick(void) { if (++events > limit) siglongjmp(jb, 1); }
 static long next(void) { long v = oi < ncur ? cur[oi] : 0; oi++; return v; }
 
 void m(int k) { tick(); printf("m %d\n", k); }
 int c(int k) { tick(); printf("c %d\n", k); return (int)next(); }
 long in(int k) { tick(); printf("in %d\n", k); return next(); }
 void r(long v) { tick(); printf("r %ld\n", v); }
+
+static void on_alarm(int sig) { (void)sig; siglongjmp(jb, 2); }
 
 int main(int argc, char **argv) {
   if (argc < 2) return 2;
@@ -54,8 +59,18 @@ int main(int argc, char **argv) {
     if (!fns[i]) continue;
     printf("== %d\n", i);
     cur = vals[i]; ncur = nvals[i]; oi = 0; events = 0;
-    if (!setjmp(jb)) { fns[i](); printf("END\n"); }
-    else printf("LIMIT\n");
+    struct itimerval tv = { {0, 0}, {0, 250000} }, off = { {0, 0}, {0, 0} };
+    int how = sigsetjmp(jb, 1);
+    if (how == 0) {
+      signal(SIGALRM, on_alarm);
+      setitimer(ITIMER_REAL, &tv, 0);
+      fns[i]();
+      setitimer(ITIMER_REAL, &off, 0);
+      printf("END\n");
+    } else {
+      setitimer(ITIMER_REAL, &off, 0);
+      printf(how == 1 ? "LIMIT\n" : "SPIN\n");
+    }
     fflush(stdout);
   }
   return 0;
